@@ -38,7 +38,7 @@ var ProgramPool = []struct {
 
 var GoVersionPool = []string{"go1.21.0", "go1.22.1", "devel"}
 
-var PlatformPool = [][2]string{{"linux", "amd64"}, {"linux", "amd64"}, {"darwin", "arm64"}, {"plan9", "mips"}}
+var PlatformPool = [][2]string{{"linux", "amd64"}, {"linux", "amd64"}, {"darwin", "arm64"}, {"plan9", "mips"}, {"linux", "arm64"}, {"linux", "mips"}, {"darwin", "386"}}
 
 // Names a program may have counted locally: approved names, bucket expansions,
 // and near-misses of them.
@@ -46,6 +46,7 @@ var LocalCounterPool = []string{
 	"editor:vscode", "editor:vim", "editor:emacs", "editor", "editor:", "editor:vscode2", "xeditor:vscode",
 	"editor:{vscode,vim}", "plain", "plain2", "plai", "go/invocations", "go/invocation", "flag:-json", "flag:{-json}",
 	"crash/crash", "crash/other", // plain counters named like approved stack counters
+	"signal:os:kill", "signal:os", "signal:kill", "signal:", "signal:none", // buckets that contain a colon, and near-misses of them
 }
 
 var LocalStackPool = []string{
@@ -54,9 +55,10 @@ var LocalStackPool = []string{
 	"crash/crash2\nmain.main:+3,+0x10",
 	"plain\nmain.main:+1,+0x1", // a stack counter whose first line is an approved plain counter
 	"crash\nmain.main:+1,+0x1",
+	"crash/other\nmain.main:+9,+0x90",
 }
 
-var CfgCounterPool = []string{"editor:{vscode,vim}", "plain", "go/invocations", "flag:{-json,-v}", "editor:{emacs}"}
+var CfgCounterPool = []string{"editor:{vscode,vim}", "plain", "go/invocations", "flag:{-json,-v}", "editor:{emacs}", "signal:{os:kill,os:term,none}"}
 var CfgStackPool = []string{"crash/crash", "crash/other"}
 
 // dyadic rationals k/2^20: exactly representable on both sides of X <= Rate.
@@ -68,6 +70,9 @@ func GenConfig(t *simrt.Tape, version string) *CfgVersion {
 	rc.GOARCH = []string{"amd64", "arm64"}
 	if t.Bool(1, 6) {
 		rc.GOOS = []string{"linux"}
+	}
+	if t.Bool(1, 6) {
+		rc.GOARCH = []string{"amd64"} // an architecture may be unlisted although its system is listed
 	}
 	for _, gv := range GoVersionPool {
 		if t.Bool(3, 4) {
@@ -145,6 +150,13 @@ func flipRate(r float64) float64 {
 	return r
 }
 
+type build struct {
+	prog, ver, gv string
+	plat          [2]string
+}
+
+var prevBuild = map[*simrt.Sim]build{} // per simulation: the build of the file written last
+
 // WriteCounterFile adds a counter file produced by the independent encoder to dir.
 // kind: 0 ordinary, 1 empty (no counters), 2 unreadable, 3 second file of a build, 4 recorded end not at midnight.
 func WriteCounterFile(t *simrt.Tape, s *simrt.Sim, dir string, begin time.Time, days int, kind int) {
@@ -155,6 +167,36 @@ func WriteCounterFile(t *simrt.Tape, s *simrt.Sim, dir string, begin time.Time, 
 		ver = pp.Versions[t.Draw(len(pp.Versions))]
 	}
 	plat := PlatformPool[t.Draw(len(PlatformPool))]
+	prog := pp.Path
+	switch t.Biased(12, 3, 4) {
+	case 1, 2: // the build of the previous file again, on another day: the usual case on a real machine
+		if b, ok := prevBuild[s]; ok {
+			prog, ver, gv, plat = b.prog, b.ver, b.gv, b.plat
+		}
+	case 3: // identities that only nearly match what a configuration can list
+		prog = []string{"example.com/gopls/v2", "gopls", "example.com/gopl", "other.org/x/gopls", "Example.com/gopls", "cmd/go2"}[t.Draw(6)]
+	case 4:
+		ver = []string{"v0.16.0", "v0.15", "v0.15.0+meta", "v1.0.0+incompatible", "v0.14.0 ", "devel2", "0.14.0"}[t.Draw(7)]
+	case 5:
+		gv = []string{"go1.22.10", "go1.22", "go1.21rc1", "go1.21.00", "Go1.21.0", "devel +abc123"}[t.Draw(6)]
+		if pp.Versions == nil {
+			ver = gv
+		}
+	case 6, 7: // a metadata value that is empty
+		switch t.Draw(5) {
+		case 0:
+			prog = ""
+		case 1:
+			ver = ""
+		case 2:
+			gv = ""
+		case 3:
+			plat[0] = ""
+		case 4:
+			plat[1] = ""
+		}
+	}
+	prevBuild[s] = build{prog, ver, gv, plat}
 	bday := refcal.DayOfUnix(begin.Unix())
 	endText := refcal.RFC3339Midnight(bday + days)
 	if kind == 4 {
@@ -165,7 +207,7 @@ func WriteCounterFile(t *simrt.Tape, s *simrt.Sim, dir string, begin time.Time, 
 	}
 	meta := refformat.MetaText([][2]string{
 		{"TimeBegin", refcal.RFC3339Midnight(bday)}, {"TimeEnd", endText},
-		{"Program", pp.Path}, {"Version", ver}, {"GoVersion", gv}, {"GOOS", plat[0]}, {"GOARCH", plat[1]},
+		{"Program", prog}, {"Version", ver}, {"GoVersion", gv}, {"GOOS", plat[0]}, {"GOARCH", plat[1]},
 	})
 	var pairs []refformat.Pair
 	if kind != 1 { // kind 1: empty file (no counters)
@@ -213,7 +255,10 @@ func WriteCounterFile(t *simrt.Tape, s *simrt.Sim, dir string, begin time.Time, 
 			binary.LittleEndian.PutUint32(data[28:], 0xffff)
 		}
 	}
-	progBase := pp.Path[strings.LastIndex(pp.Path, "/")+1:]
+	progBase := prog[strings.LastIndex(prog, "/")+1:]
+	if progBase == "" {
+		progBase = "unknown"
+	}
 	name := fmt.Sprintf("%s@%s-%s-%s-%s-%s.v1.count", progBase, ver, gv, plat[0], plat[1], refcal.Date(bday))
 	if kind == 3 { // a second file of the same build and day cannot exist; vary the name as another program would
 		name = "x" + name
